@@ -524,6 +524,46 @@ def signature(case, codes):
             "internal_cycle": has_internal_cycle(case["net"]) if case.get("loopless") else False}
 
 
+def extra_monitors(rep, args):
+    """Shipped model, real solver floats (the generated networks are dyadic and never show solver noise): loopless and
+    plain FVA called one after the other on the same textbook model with 1 and 2 processes must not raise and must
+    agree within the tolerance rule.  (Found by hand: _add_cycle_free built crossed bounds from a flux 1e-13 below a
+    positive lower bound; whether that happened depended on the calls made before.)"""
+    import warnings
+    import numpy as np
+    from cobra.io import load_model
+    from cobra.flux_analysis import flux_variability_analysis as fva
+    out = {"model": "textbook", "calls": []}
+    with warnings.catch_warnings():
+        warnings.simplefilter("ignore")
+        m = load_model("textbook")
+        seq = [(True, 1), (True, 2), (False, 2), (True, 1)] if args.tier == "quick" else \
+              [(True, 1), (True, 2), (False, 2), (True, 1), (True, 3), (False, 1), (True, 2)]
+        ref = {}
+        for loopless, p in seq:
+            try:
+                df = fva(m, loopless=loopless, processes=p)
+            except Exception as e:  # noqa
+                out["calls"].append([loopless, p, "raised " + type(e).__name__])
+                rep.violation({"monitor": "textbook-sequence", "raised": type(e).__name__},
+                              {"failed": "flux_variability_analysis raised on the shipped textbook model",
+                               "sequence_of_calls_(loopless, processes)": seq, "failing_call": [loopless, p],
+                               "exception": "%s: %s" % (type(e).__name__, e)})
+                break
+            out["calls"].append([loopless, p, "ok"])
+            if loopless in ref:
+                d = float(np.nanmax(np.abs((df - ref[loopless]).values)))
+                if d > 1e-6 * max(1.0, float(np.nanmax(np.abs(ref[loopless].values)))):
+                    rep.violation({"monitor": "textbook-sequence", "differs": True},
+                                  {"failed": "FVA of the same model differs between calls / process counts",
+                                   "sequence_of_calls_(loopless, processes)": seq, "failing_call": [loopless, p],
+                                   "max_abs_difference": d})
+                    break
+            else:
+                ref[loopless] = df
+    return out
+
+
 if __name__ == "__main__":
     # the correspondence functions do not depend on the generated tables: build them first, so that a source
     # shape the translator no longer recognises (Properties/C05.v then fails) still gets a failing-input search
